@@ -1,13 +1,686 @@
 package vsimenv
 
 import (
+	_ "embed"
+	"fmt"
+	"math/big"
+	"sort"
+	"strings"
+	"time"
+
+	"github.com/golang/protobuf/proto" //nolint:staticcheck // text format of the shipped P4Info
+	p4cfg "github.com/p4lang/p4runtime/go/p4/config/v1"
+	p4 "github.com/p4lang/p4runtime/go/p4/v1"
+	spb "google.golang.org/genproto/googleapis/rpc/status"
+	"google.golang.org/grpc/codes"
 	"google.golang.org/grpc/connectivity"
+	"google.golang.org/grpc/status"
 )
 
-type SimP4 struct {
-	w     *World
-	State connectivity.State
-	Fired map[string]int
+// The P4Info the simulated switch serves is the file shipped in the repo
+// (copied next to this package by build.sh), parsed independently of
+// internal/p4constants.
+//
+//go:embed p4info.txt
+var p4infoText string
+
+type P4Invalid struct {
+	What   string
+	Entity string
+	Stamp  uint64
 }
 
-func newSimP4(w *World) *SimP4 { return &SimP4{w: w, State: connectivity.Ready, Fired: map[string]int{}} }
+type P4WriteRec struct {
+	N       int // 1-based index of the Write RPC since the run started
+	Inc     int
+	Updates int
+	Failed  string // "" | "transport" | "update" | "semantic"
+	Summary string
+	Stamp   uint64
+}
+
+type p4Stream struct {
+	inc    int
+	q      [][]byte // serialized StreamMessageResponse
+	closed bool
+}
+
+type SimP4 struct {
+	w      *World
+	State  connectivity.State
+	Fired  map[string]int
+	Info   *p4cfg.P4Info
+	Faults RPCFaults
+	// FailKind: how the FailNth / FailDen write fails: "transport" (nothing
+	// applied, gRPC error), "lost" (applied, response lost), "update" (per-update
+	// P4 error on one update of the batch, the others are applied)
+	FailKind string
+
+	Tables   map[uint32]map[string]*p4.TableEntry
+	Meters   map[uint32]map[int64]*p4.MeterConfig
+	Counters map[uint32]map[int64]bool
+	PacketOuts []UnixWrite
+	Writes   int
+	WriteLog []P4WriteRec
+	Invalid  []P4Invalid
+	streams  []*p4Stream
+	Reads    int
+
+	tabByID  map[uint32]*p4cfg.Table
+	actByID  map[uint32]*p4cfg.Action
+	metByID  map[uint32]*p4cfg.Meter
+	ctrByID  map[uint32]*p4cfg.Counter
+	nameToID map[string]uint32
+}
+
+func newSimP4(w *World) *SimP4 {
+	s := &SimP4{w: w, State: connectivity.Ready, Fired: map[string]int{}, Faults: RPCFaults{LatMin: 100 * time.Microsecond}, FailKind: "transport"}
+	s.resetState()
+	info := &p4cfg.P4Info{}
+	if err := proto.UnmarshalText(p4infoText, info); err != nil {
+		panic("vsimenv: cannot parse the shipped p4info.txt: " + err.Error())
+	}
+	s.SetInfo(info)
+	return s
+}
+
+func (s *SimP4) resetState() {
+	s.Tables = map[uint32]map[string]*p4.TableEntry{}
+	s.Meters = map[uint32]map[int64]*p4.MeterConfig{}
+	s.Counters = map[uint32]map[int64]bool{}
+}
+
+// SetInfo installs the pipeline description (optionally with reduced array sizes).
+func (s *SimP4) SetInfo(info *p4cfg.P4Info) {
+	s.Info = info
+	s.tabByID, s.actByID, s.metByID, s.ctrByID = map[uint32]*p4cfg.Table{}, map[uint32]*p4cfg.Action{}, map[uint32]*p4cfg.Meter{}, map[uint32]*p4cfg.Counter{}
+	s.nameToID = map[string]uint32{}
+	for _, t := range info.Tables {
+		s.tabByID[t.Preamble.Id] = t
+		s.nameToID[t.Preamble.Name] = t.Preamble.Id
+	}
+	for _, a := range info.Actions {
+		s.actByID[a.Preamble.Id] = a
+		s.nameToID[a.Preamble.Name] = a.Preamble.Id
+	}
+	for _, m := range info.Meters {
+		s.metByID[m.Preamble.Id] = m
+		s.nameToID[m.Preamble.Name] = m.Preamble.Id
+	}
+	for _, c := range info.Counters {
+		s.ctrByID[c.Preamble.Id] = c
+		s.nameToID[c.Preamble.Name] = c.Preamble.Id
+	}
+}
+
+// Resize changes the size of a counter or meter array in the served P4Info.
+func (s *SimP4) Resize(name string, size int64) {
+	for _, m := range s.Info.Meters {
+		if m.Preamble.Name == name {
+			m.Size = size
+		}
+	}
+	for _, c := range s.Info.Counters {
+		if c.Preamble.Name == name {
+			c.Size = size
+		}
+	}
+}
+
+func (s *SimP4) ID(name string) uint32 { return s.nameToID[name] }
+
+func (s *SimP4) Table(name string) map[string]*p4.TableEntry { return s.Tables[s.nameToID[name]] }
+
+func (s *SimP4) SortedEntries(name string) []*p4.TableEntry {
+	t := s.Table(name)
+	keys := make([]string, 0, len(t))
+	for k := range t {
+		keys = append(keys, k)
+	}
+	sort.Strings(keys)
+	out := make([]*p4.TableEntry, 0, len(keys))
+	for _, k := range keys {
+		out = append(out, t[k])
+	}
+	return out
+}
+
+func (s *SimP4) MatchFieldID(table, field string) uint32 {
+	for _, f := range s.tabByID[s.nameToID[table]].GetMatchFields() {
+		if f.Name == field {
+			return f.Id
+		}
+	}
+	return 0
+}
+
+func (s *SimP4) ParamID(action, param string) uint32 {
+	for _, p := range s.actByID[s.nameToID[action]].GetParams() {
+		if p.Name == param {
+			return p.Id
+		}
+	}
+	return 0
+}
+
+func (s *SimP4) ActionName(id uint32) string {
+	if a := s.actByID[id]; a != nil {
+		return a.Preamble.Name
+	}
+	return fmt.Sprintf("action#%d", id)
+}
+
+func (s *SimP4) MeterSize(name string) int64 { return s.metByID[s.nameToID[name]].GetSize() }
+func (s *SimP4) CounterSize(name string) int64 { return s.ctrByID[s.nameToID[name]].GetSize() }
+
+// ---------------------------------------------------------------- canonical values
+
+func canon(b []byte) string {
+	i := 0
+	for i < len(b)-1 && b[i] == 0 {
+		i++
+	}
+	if len(b) == 0 {
+		return "00"
+	}
+	return fmt.Sprintf("%x", b[i:])
+}
+
+// BytesToU64 decodes a P4Runtime bytestring.
+func BytesToU64(b []byte) uint64 {
+	var v uint64
+	for _, x := range b {
+		v = v<<8 | uint64(x)
+	}
+	return v
+}
+
+func fits(b []byte, bw int32) bool {
+	v := new(big.Int).SetBytes(b)
+	return v.BitLen() <= int(bw)
+}
+
+func entryKey(e *p4.TableEntry) string {
+	var parts []string
+	for _, m := range e.Match {
+		switch x := m.FieldMatchType.(type) {
+		case *p4.FieldMatch_Exact_:
+			parts = append(parts, fmt.Sprintf("%d=e:%s", m.FieldId, canon(x.Exact.Value)))
+		case *p4.FieldMatch_Lpm:
+			parts = append(parts, fmt.Sprintf("%d=l:%s/%d", m.FieldId, canon(x.Lpm.Value), x.Lpm.PrefixLen))
+		case *p4.FieldMatch_Ternary_:
+			parts = append(parts, fmt.Sprintf("%d=t:%s&%s", m.FieldId, canon(x.Ternary.Value), canon(x.Ternary.Mask)))
+		case *p4.FieldMatch_Range_:
+			parts = append(parts, fmt.Sprintf("%d=r:%s-%s", m.FieldId, canon(x.Range.Low), canon(x.Range.High)))
+		default:
+			parts = append(parts, fmt.Sprintf("%d=?", m.FieldId))
+		}
+	}
+	sort.Strings(parts)
+	return strings.Join(parts, ",") + fmt.Sprintf("|p%d", e.Priority)
+}
+
+// ---------------------------------------------------------------- validation against the served P4Info (C16 monitor)
+
+func (s *SimP4) invalid(what string, ent proto.Message) {
+	txt := ""
+	if ent != nil {
+		txt = fmt.Sprint(ent)
+		if len(txt) > 400 {
+			txt = txt[:400]
+		}
+	}
+	s.Invalid = append(s.Invalid, P4Invalid{What: what, Entity: txt, Stamp: s.w.NextStamp()})
+	s.w.Sim.Logf("p4 INVALID %s", what)
+}
+
+// validateTableEntry returns "" when the entry conforms to the P4Info.
+func (s *SimP4) validateTableEntry(e *p4.TableEntry, del bool) string {
+	t := s.tabByID[e.TableId]
+	if t == nil {
+		return fmt.Sprintf("table:unknown-id:%d", e.TableId)
+	}
+	name := t.Preamble.Name
+	needPrio := false
+	seen := map[uint32]bool{}
+	fields := map[uint32]*p4cfg.MatchField{}
+	for _, f := range t.MatchFields {
+		fields[f.Id] = f
+		if f.GetMatchType() == p4cfg.MatchField_TERNARY || f.GetMatchType() == p4cfg.MatchField_RANGE || f.GetMatchType() == p4cfg.MatchField_OPTIONAL {
+			needPrio = true
+		}
+	}
+	for _, m := range e.Match {
+		f := fields[m.FieldId]
+		if f == nil {
+			return fmt.Sprintf("match:field-not-in-table:%s:%d", name, m.FieldId)
+		}
+		if seen[m.FieldId] {
+			return fmt.Sprintf("match:field-repeated:%s.%s", name, f.Name)
+		}
+		seen[m.FieldId] = true
+		switch x := m.FieldMatchType.(type) {
+		case *p4.FieldMatch_Exact_:
+			if f.GetMatchType() != p4cfg.MatchField_EXACT {
+				return fmt.Sprintf("match:wrong-kind:%s.%s:exact", name, f.Name)
+			}
+			if !fits(x.Exact.Value, f.Bitwidth) {
+				return fmt.Sprintf("match:value-too-wide:%s.%s", name, f.Name)
+			}
+		case *p4.FieldMatch_Lpm:
+			if f.GetMatchType() != p4cfg.MatchField_LPM {
+				return fmt.Sprintf("match:wrong-kind:%s.%s:lpm", name, f.Name)
+			}
+			if !fits(x.Lpm.Value, f.Bitwidth) {
+				return fmt.Sprintf("match:value-too-wide:%s.%s", name, f.Name)
+			}
+			if x.Lpm.PrefixLen <= 0 || x.Lpm.PrefixLen > f.Bitwidth {
+				return fmt.Sprintf("match:bad-prefix-length:%s.%s", name, f.Name)
+			}
+		case *p4.FieldMatch_Ternary_:
+			if f.GetMatchType() != p4cfg.MatchField_TERNARY {
+				return fmt.Sprintf("match:wrong-kind:%s.%s:ternary", name, f.Name)
+			}
+			if !fits(x.Ternary.Value, f.Bitwidth) || !fits(x.Ternary.Mask, f.Bitwidth) {
+				return fmt.Sprintf("match:value-too-wide:%s.%s", name, f.Name)
+			}
+			if new(big.Int).SetBytes(x.Ternary.Mask).Sign() == 0 {
+				return fmt.Sprintf("match:zero-ternary-mask:%s.%s", name, f.Name)
+			}
+		case *p4.FieldMatch_Range_:
+			if f.GetMatchType() != p4cfg.MatchField_RANGE {
+				return fmt.Sprintf("match:wrong-kind:%s.%s:range", name, f.Name)
+			}
+			if !fits(x.Range.Low, f.Bitwidth) || !fits(x.Range.High, f.Bitwidth) {
+				return fmt.Sprintf("match:value-too-wide:%s.%s", name, f.Name)
+			}
+			if new(big.Int).SetBytes(x.Range.Low).Cmp(new(big.Int).SetBytes(x.Range.High)) > 0 {
+				return fmt.Sprintf("match:range-low-above-high:%s.%s", name, f.Name)
+			}
+		default:
+			return fmt.Sprintf("match:unsupported-kind:%s.%s", name, f.Name)
+		}
+	}
+	// exact fields are mandatory
+	for _, f := range t.MatchFields {
+		if f.GetMatchType() == p4cfg.MatchField_EXACT && !seen[f.Id] {
+			return fmt.Sprintf("match:exact-field-missing:%s.%s", name, f.Name)
+		}
+	}
+	if needPrio && e.Priority <= 0 {
+		return fmt.Sprintf("priority:zero-on-ternary-or-range-table:%s", name)
+	}
+	if !needPrio && e.Priority != 0 {
+		return fmt.Sprintf("priority:nonzero-on-exact-table:%s", name)
+	}
+	if del {
+		return ""
+	}
+	act := e.GetAction().GetAction()
+	if act == nil {
+		return fmt.Sprintf("action:missing:%s", name)
+	}
+	allowed := false
+	for _, r := range t.ActionRefs {
+		if r.Id == act.ActionId {
+			allowed = true
+		}
+	}
+	a := s.actByID[act.ActionId]
+	if a == nil || !allowed {
+		return fmt.Sprintf("action:not-allowed-for-table:%s:%s", name, s.ActionName(act.ActionId))
+	}
+	got := map[uint32]bool{}
+	for _, p := range act.Params {
+		var decl *p4cfg.Action_Param
+		for _, d := range a.Params {
+			if d.Id == p.ParamId {
+				decl = d
+			}
+		}
+		if decl == nil {
+			return fmt.Sprintf("action:unknown-param:%s:%d", a.Preamble.Name, p.ParamId)
+		}
+		if got[p.ParamId] {
+			return fmt.Sprintf("action:param-repeated:%s.%s", a.Preamble.Name, decl.Name)
+		}
+		got[p.ParamId] = true
+		if !fits(p.Value, decl.Bitwidth) {
+			return fmt.Sprintf("action:param-too-wide:%s.%s", a.Preamble.Name, decl.Name)
+		}
+	}
+	for _, d := range a.Params {
+		if !got[d.Id] {
+			return fmt.Sprintf("action:param-missing:%s.%s", a.Preamble.Name, d.Name)
+		}
+	}
+	return ""
+}
+
+// ---------------------------------------------------------------- Write / Read
+
+func p4err(code codes.Code, msg string) *p4.Error {
+	return &p4.Error{CanonicalCode: int32(code), Message: msg, Space: "ALL-sswitch-p4org"}
+}
+
+// applyUpdate validates and applies one update; returns the per-update status.
+func (s *SimP4) applyUpdate(u *p4.Update) *p4.Error {
+	switch ent := u.GetEntity().GetEntity().(type) {
+	case *p4.Entity_TableEntry:
+		e := ent.TableEntry
+		if bad := s.validateTableEntry(e, u.Type == p4.Update_DELETE); bad != "" {
+			s.invalid(bad, e)
+			return p4err(codes.InvalidArgument, bad)
+		}
+		tab := s.Tables[e.TableId]
+		if tab == nil {
+			tab = map[string]*p4.TableEntry{}
+			s.Tables[e.TableId] = tab
+		}
+		k := entryKey(e)
+		_, exists := tab[k]
+		switch u.Type {
+		case p4.Update_INSERT:
+			if exists {
+				return p4err(codes.AlreadyExists, "entry exists")
+			}
+			if int64(len(tab)) >= s.tabByID[e.TableId].Size {
+				return p4err(codes.ResourceExhausted, "table full")
+			}
+			tab[k] = proto.Clone(e).(*p4.TableEntry)
+		case p4.Update_MODIFY:
+			if !exists {
+				return p4err(codes.NotFound, "entry not found")
+			}
+			tab[k] = proto.Clone(e).(*p4.TableEntry)
+		case p4.Update_DELETE:
+			if !exists {
+				return p4err(codes.NotFound, "entry not found")
+			}
+			delete(tab, k)
+		default:
+			return p4err(codes.InvalidArgument, "update type unspecified")
+		}
+	case *p4.Entity_MeterEntry:
+		m := ent.MeterEntry
+		decl := s.metByID[m.MeterId]
+		if decl == nil {
+			s.invalid(fmt.Sprintf("meter:unknown-id:%d", m.MeterId), m)
+			return p4err(codes.InvalidArgument, "unknown meter")
+		}
+		if m.Index == nil || m.Index.Index < 0 || m.Index.Index >= decl.Size {
+			s.invalid(fmt.Sprintf("meter:index-out-of-range:%s", decl.Preamble.Name), m)
+			return p4err(codes.InvalidArgument, "meter index out of range")
+		}
+		if u.Type != p4.Update_MODIFY {
+			s.invalid(fmt.Sprintf("meter:update-type-not-modify:%s", decl.Preamble.Name), m)
+			return p4err(codes.InvalidArgument, "meter entries can only be modified")
+		}
+		if c := m.Config; c != nil && (c.Cir < 0 || c.Pir < 0 || c.Cburst < 0 || c.Pburst < 0 || c.Cir > c.Pir) {
+			s.invalid(fmt.Sprintf("meter:bad-config:%s", decl.Preamble.Name), m)
+			return p4err(codes.InvalidArgument, "bad meter config")
+		}
+		if s.Meters[m.MeterId] == nil {
+			s.Meters[m.MeterId] = map[int64]*p4.MeterConfig{}
+		}
+		if m.Config == nil {
+			delete(s.Meters[m.MeterId], m.Index.Index) // reset to default
+		} else {
+			s.Meters[m.MeterId][m.Index.Index] = proto.Clone(m.Config).(*p4.MeterConfig)
+		}
+	case *p4.Entity_CounterEntry:
+		c := ent.CounterEntry
+		decl := s.ctrByID[c.CounterId]
+		if decl == nil {
+			s.invalid(fmt.Sprintf("counter:unknown-id:%d", c.CounterId), c)
+			return p4err(codes.InvalidArgument, "unknown counter")
+		}
+		if c.Index == nil || c.Index.Index < 0 || c.Index.Index >= decl.Size {
+			s.invalid(fmt.Sprintf("counter:index-out-of-range:%s", decl.Preamble.Name), c)
+			return p4err(codes.InvalidArgument, "counter index out of range")
+		}
+		if u.Type != p4.Update_MODIFY {
+			s.invalid(fmt.Sprintf("counter:update-type-not-modify:%s", decl.Preamble.Name), c)
+			return p4err(codes.InvalidArgument, "counter entries can only be modified")
+		}
+		if s.Counters[c.CounterId] == nil {
+			s.Counters[c.CounterId] = map[int64]bool{}
+		}
+		s.Counters[c.CounterId][c.Index.Index] = true
+	default:
+		if u.GetEntity() == nil {
+			// the agent's ClearTable pads its batch with nil updates
+			s.invalid("update:nil-entity", nil)
+			return p4err(codes.InvalidArgument, "empty update")
+		}
+		s.invalid("update:unsupported-entity", u.GetEntity())
+		return p4err(codes.Unimplemented, "entity kind not supported")
+	}
+	return &p4.Error{CanonicalCode: int32(codes.OK)}
+}
+
+func summarize(req *p4.WriteRequest) string {
+	var parts []string
+	for _, u := range req.Updates {
+		kind := "?"
+		switch ent := u.GetEntity().GetEntity().(type) {
+		case *p4.Entity_TableEntry:
+			kind = fmt.Sprintf("T%d", ent.TableEntry.TableId)
+		case *p4.Entity_MeterEntry:
+			kind = fmt.Sprintf("M%d[%d]", ent.MeterEntry.MeterId, ent.MeterEntry.GetIndex().GetIndex())
+		case *p4.Entity_CounterEntry:
+			kind = fmt.Sprintf("C%d[%d]", ent.CounterEntry.CounterId, ent.CounterEntry.GetIndex().GetIndex())
+		}
+		parts = append(parts, u.Type.String()[:3]+":"+kind)
+	}
+	return strings.Join(parts, " ")
+}
+
+// write handles one Write RPC on the simulator goroutine; returns the
+// serialized google.rpc.Status (nil = OK).
+func (s *SimP4) write(reqBytes []byte, inc int, failThis bool) (st []byte) {
+	var req p4.WriteRequest
+	if err := proto.Unmarshal(reqBytes, &req); err != nil {
+		b, _ := proto.Marshal(status.New(codes.Internal, "unmarshal").Proto())
+		return b
+	}
+	rec := P4WriteRec{N: s.Writes, Inc: inc, Updates: len(req.Updates), Summary: summarize(&req), Stamp: s.w.NextStamp()}
+	var errs []*p4.Error
+	anyErr := false
+	failIdx := -1
+	if failThis && s.FailKind == "update" && len(req.Updates) > 0 {
+		failIdx = s.w.Sim.Ch.Choose(len(req.Updates), "p4-fail-update")
+	}
+	for i, u := range req.Updates {
+		if i == failIdx {
+			errs = append(errs, p4err(codes.Internal, "injected per-update failure"))
+			anyErr = true
+			continue
+		}
+		e := s.applyUpdate(u)
+		if e.CanonicalCode != int32(codes.OK) {
+			anyErr = true
+			if rec.Failed == "" {
+				rec.Failed = "semantic"
+			}
+		}
+		errs = append(errs, e)
+	}
+	if failIdx >= 0 {
+		rec.Failed = "update"
+	}
+	s.WriteLog = append(s.WriteLog, rec)
+	s.w.Sim.Logf("p4 write #%d inc=%d %s failed=%q", rec.N, inc, rec.Summary, rec.Failed)
+	if !anyErr {
+		return nil
+	}
+	stt := status.New(codes.Unknown, "write failed for some updates")
+	for _, e := range errs {
+		if d, err := stt.WithDetails(e); err == nil {
+			stt = d
+		}
+	}
+	b, _ := proto.Marshal(stt.Proto())
+	return b
+}
+
+func (s *SimP4) submitWrite(reqBytes []byte, inc int) *rpcCall {
+	sim := s.w.Sim
+	s.Writes++
+	c := &rpcCall{id: s.Writes, inc: inc}
+	f := &s.Faults
+	finish := func(d time.Duration, fn func()) {
+		sim.After(d, func() {
+			fn()
+			c.done = true
+		})
+	}
+	if s.State != connectivity.Ready {
+		s.Fired["p4-unavailable"]++
+		finish(f.LatMin, func() { c.errCode, c.errMsg = codes.Unavailable, "switch unreachable (simulated)" })
+		return c
+	}
+	failThis := (f.FailNth != 0 && s.Writes == f.FailNth) || (f.FailDen > 0 && sim.Ch.Bool(1, f.FailDen, "p4-fail"))
+	d1 := f.lat(sim)
+	if failThis && s.FailKind == "transport" {
+		s.Fired["p4-write-fail-transport"]++
+		n := s.Writes
+		finish(d1, func() {
+			s.WriteLog = append(s.WriteLog, P4WriteRec{N: n, Inc: inc, Failed: "transport", Stamp: s.w.NextStamp()})
+			sim.Logf("p4 write #%d inc=%d failed=transport", n, inc)
+			c.errCode, c.errMsg = codes.Unavailable, "transport failure (simulated)"
+		})
+		return c
+	}
+	sim.After(d1, func() {
+		upd := failThis && s.FailKind == "update"
+		if upd {
+			s.Fired["p4-write-fail-update"]++
+		}
+		st := s.write(reqBytes, inc, upd)
+		d2 := f.lat(sim)
+		if failThis && s.FailKind == "lost" {
+			s.Fired["p4-write-response-lost"]++
+			finish(d2, func() { c.errCode, c.errMsg = codes.Unavailable, "response lost (simulated)" })
+			return
+		}
+		finish(d2, func() {
+			if st != nil {
+				c.errCode, c.errMsg, c.detail = codes.Unknown, "write failed", st
+			} else {
+				c.resp, _ = proto.Marshal(&p4.WriteResponse{})
+			}
+		})
+	})
+	return c
+}
+
+func (s *SimP4) submitRead(reqBytes []byte, inc int) *rpcCall {
+	sim := s.w.Sim
+	s.Reads++
+	c := &rpcCall{inc: inc}
+	if s.State != connectivity.Ready {
+		sim.After(s.Faults.LatMin, func() { c.errCode, c.errMsg, c.done = codes.Unavailable, "switch unreachable (simulated)", true })
+		return c
+	}
+	sim.After(s.Faults.lat(sim), func() {
+		var req p4.ReadRequest
+		resp := &p4.ReadResponse{}
+		if err := proto.Unmarshal(reqBytes, &req); err == nil {
+			for _, ent := range req.Entities {
+				if te := ent.GetTableEntry(); te != nil {
+					if s.tabByID[te.TableId] == nil && te.TableId != 0 {
+						s.invalid(fmt.Sprintf("read:unknown-table:%d", te.TableId), te)
+						continue
+					}
+					var keys []string
+					for k := range s.Tables[te.TableId] {
+						keys = append(keys, k)
+					}
+					sort.Strings(keys)
+					for _, k := range keys {
+						resp.Entities = append(resp.Entities, &p4.Entity{Entity: &p4.Entity_TableEntry{TableEntry: s.Tables[te.TableId][k]}})
+					}
+				}
+			}
+		}
+		out, _ := proto.Marshal(resp)
+		sim.After(s.Faults.lat(sim), func() { c.resp, c.done = out, true })
+	})
+	return c
+}
+
+func (s *SimP4) submitGetConfig(inc int) *rpcCall {
+	sim := s.w.Sim
+	c := &rpcCall{inc: inc}
+	if s.State != connectivity.Ready {
+		sim.After(s.Faults.LatMin, func() { c.errCode, c.errMsg, c.done = codes.Unavailable, "switch unreachable (simulated)", true })
+		return c
+	}
+	sim.After(2*s.Faults.lat(sim), func() {
+		resp := &p4.GetForwardingPipelineConfigResponse{Config: &p4.ForwardingPipelineConfig{P4Info: s.Info, Cookie: &p4.ForwardingPipelineConfig_Cookie{Cookie: 1}}}
+		c.resp, _ = proto.Marshal(resp)
+		c.done = true
+	})
+	return c
+}
+
+// ---------------------------------------------------------------- stream channel
+
+func (s *SimP4) openStream(inc int) (*p4Stream, codes.Code) {
+	if s.State != connectivity.Ready {
+		return nil, codes.Unavailable
+	}
+	st := &p4Stream{inc: inc}
+	s.streams = append(s.streams, st)
+	return st, codes.OK
+}
+
+func (s *SimP4) streamSend(st *p4Stream, reqBytes []byte) codes.Code {
+	if st.closed || s.State != connectivity.Ready {
+		return codes.Unavailable
+	}
+	var req p4.StreamMessageRequest
+	if err := proto.Unmarshal(reqBytes, &req); err != nil {
+		return codes.Internal
+	}
+	switch u := req.Update.(type) {
+	case *p4.StreamMessageRequest_Arbitration:
+		resp := &p4.StreamMessageResponse{Update: &p4.StreamMessageResponse_Arbitration{Arbitration: &p4.MasterArbitrationUpdate{
+			DeviceId: u.Arbitration.DeviceId, ElectionId: u.Arbitration.ElectionId, Status: &spb.Status{Code: int32(codes.OK)}}}}
+		b, _ := proto.Marshal(resp)
+		s.w.Sim.After(s.Faults.LatMin, func() { st.q = append(st.q, b) })
+	case *p4.StreamMessageRequest_Packet:
+		s.PacketOuts = append(s.PacketOuts, UnixWrite{Data: append([]byte{}, u.Packet.Payload...), At: s.w.Sim.NowNS(), Seq: s.w.NextStamp()})
+		s.w.Sim.Logf("p4 packet-out %d bytes", len(u.Packet.Payload))
+	}
+	return codes.OK
+}
+
+// InjectDigest delivers a digest carrying a UE address on every live stream.
+func (s *SimP4) InjectDigest(ueAddr uint32) int {
+	d := &p4.StreamMessageResponse{Update: &p4.StreamMessageResponse_Digest{Digest: &p4.DigestList{
+		Data: []*p4.P4Data{{Data: &p4.P4Data_Bitstring{Bitstring: []byte{byte(ueAddr >> 24), byte(ueAddr >> 16), byte(ueAddr >> 8), byte(ueAddr)}}}}}}}
+	b, _ := proto.Marshal(d)
+	n := 0
+	for _, st := range s.streams {
+		if !st.closed && !s.w.Sim.IncDead(st.inc) {
+			st.q = append(st.q, b)
+			n++
+		}
+	}
+	s.w.Sim.MarkDirty()
+	return n
+}
+
+// Restart models a switch / ONOS restart: streams break; state is lost unless keep.
+func (s *SimP4) Restart(keep bool) {
+	for _, st := range s.streams {
+		st.closed = true
+	}
+	if !keep {
+		s.resetState()
+	}
+	s.w.Sim.Logf("p4 restart keep=%v", keep)
+	s.w.Sim.MarkDirty()
+}
